@@ -22,6 +22,7 @@ RENAMES = {
     ("Coalesce", "members"): {"__first", "__rest", "_Coalesce__first", "_Coalesce__rest"}, ("FunctionApplication", "_repr"): {"__func", "_FunctionApplication__func", "args", "kwargs"},
     ("PipelineStep", "_name"): {"_name", "name", "step"},
 }
+FILTERED_OK = set()        # (class, field) pairs whose constructor legitimately filters its argument: none today
 SKIP = {"_DatasetClassMeta", "_DatasetClassMixin", "Interface", "Implementation"}       # metaclass protocol / covered elsewhere
 
 
@@ -31,7 +32,7 @@ def obligations(repo):
         for ci in m.classes.values():
             if ci.name in SKIP or "__init__" not in ci.methods:
                 continue
-            if not (ci.name == "MemoryCache" or any(repo.is_subclass(ci, b) for b in ("Evaluatable", "Effect", "Cache"))):
+            if not (ci.name in ("MemoryCache", "DatasetFactory", "_Auto", "Arguments") or any(repo.is_subclass(ci, b) for b in ("Evaluatable", "Effect", "Cache"))):
                 continue
             from .common import inline_lets
             fn = inline_lets(ci.methods["__init__"])          # named temporaries are immaterial
@@ -66,6 +67,13 @@ def obligations(repo):
                     field_ok[fld] = field_ok.get(fld, False) or bool(used & allowed) or not allowed
                     if foreign:
                         bad.append(f"self.{fld} uses other parameters {sorted(foreign)}")
+                    filt = [ast.unparse(c_) for c_ in ast.walk(n.value) if isinstance(c_, ast.comprehension) and c_.ifs]
+                    if filt and (ci.name, fld) not in FILTERED_OK:
+                        bad.append(f"self.{fld} drops elements ({filt[0][:50]})")
+                    others = {x.attr for x in ast.walk(n.value) if isinstance(x, ast.Attribute) and isinstance(x.value, ast.Name) and x.value.id == "self" and x.attr != fld}
+                    others -= {"_build_doc", "__class__"}
+                    if others:
+                        bad.append(f"self.{fld} depends on other fields {sorted(others)}")
                     if unknown_calls:
                         bad.append(f"self.{fld} goes through {sorted(unknown_calls)}")
                     if free - {"MISSING"}:
